@@ -17,12 +17,15 @@ struct vf_cv { unsigned notify_one, notify_all, waits; };
 static void vf_monitor_enter(struct vf_mutex* m);
 static void vf_monitor_exit(struct vf_mutex* m);
 static void vf_cv_wait_check(struct vf_cv* cv, struct vf_mutex* m);
+static void vf_cv_wait_until_check(struct vf_cv* cv, struct vf_mutex* m, int64_t deadline);   /* only groups that use wait_until define it */
 #define VF_ACQUIRE(m)     do { VF_P(!(m)->held, "a mutex is not acquired recursively by the same call"); (m)->held = 1; (m)->acquired++; vf_monitor_enter(m); } while (0)
 #define VF_TRY_ACQUIRE(m) do { VF_P(!(m)->held, "a mutex is not acquired recursively by the same call"); if (VF_nondet_bool()) { (m)->held = 1; (m)->acquired++; vf_monitor_enter(m); } } while (0)
 #define VF_RELEASE(m)     do { VF_P((m)->held, "only a held mutex is released"); vf_monitor_exit(m); (m)->held = 0; (m)->released++; } while (0)
 #define VF_HELD(m)        ((m)->held)
 #define VF_SCOPE_EXIT(m)  do { if ((m)->held) { VF_RELEASE(m); } } while (0)
 #define VF_CV_WAIT(cv, m) do { VF_P((m)->held, "condition_variable::wait is called with the lock held"); vf_cv_wait_check(cv, m); (cv)->waits++; \
+                               vf_monitor_exit(m); (m)->held = 0; (m)->held = 1; vf_monitor_enter(m); } while (0)
+#define VF_CV_WAIT_UNTIL(cv, m, t) do { VF_P((m)->held, "condition_variable::wait_until is called with the lock held"); vf_cv_wait_until_check(cv, m, (int64_t)(t)); (cv)->waits++; \
                                vf_monitor_exit(m); (m)->held = 0; (m)->held = 1; vf_monitor_enter(m); } while (0)
 #define VF_NOTIFY_ONE(cv) ((void)((cv)->notify_one++))
 #define VF_NOTIFY_ALL(cv) ((void)((cv)->notify_all++))
